@@ -15,6 +15,9 @@ import (
 
 var c17Names = []string{"a", "b", "zz"} // zz is never defined: a dangling reference
 
+// what a reference (map / store input, block filter) may name: a module, the dangling name, or nothing at all
+var c17Refs = []string{"a", "b", "zz", ""}
+
 func c17Kind(m *pbsubstreams.Module, k int) {
 	switch k {
 	case 0: // absent
@@ -38,9 +41,9 @@ func c17Input() *pbsubstreams.Module_Input {
 		types := []string{"sf.test.Block", "", "sf.substreams.v1.Clock", "other.Block"}
 		in.Input = &pbsubstreams.Module_Input_Source_{Source: &pbsubstreams.Module_Input_Source{Type: types[sym.Choice("source-type", len(types))]}}
 	case 3:
-		in.Input = &pbsubstreams.Module_Input_Map_{Map: &pbsubstreams.Module_Input_Map{ModuleName: c17Names[sym.Choice("ref", len(c17Names))]}}
+		in.Input = &pbsubstreams.Module_Input_Map_{Map: &pbsubstreams.Module_Input_Map{ModuleName: c17Refs[sym.Choice("ref", len(c17Refs))]}}
 	case 4:
-		in.Input = &pbsubstreams.Module_Input_Store_{Store: &pbsubstreams.Module_Input_Store{ModuleName: c17Names[sym.Choice("ref", len(c17Names))], Mode: pbsubstreams.Module_Input_Store_Mode(sym.I32("store-mode"))}}
+		in.Input = &pbsubstreams.Module_Input_Store_{Store: &pbsubstreams.Module_Input_Store{ModuleName: c17Refs[sym.Choice("ref", len(c17Refs))], Mode: pbsubstreams.Module_Input_Store_Mode(sym.I32("store-mode"))}}
 	}
 	return in
 }
@@ -109,8 +112,12 @@ func c17Request() *pbsubstreamsrpc.Request {
 		}
 		if focus == 2 {
 			m.Inputs = []*pbsubstreams.Module_Input{c17Source()}
+			// a params value that happens to be spelled like a module (the filter's, or another)
+			if pv := sym.Choice("params-value", 3); pv > 0 {
+				m.Inputs = append([]*pbsubstreams.Module_Input{{Input: &pbsubstreams.Module_Input_Params_{Params: &pbsubstreams.Module_Input_Params{Value: c17Names[pv-1]}}}}, m.Inputs...)
+			}
 			if sym.Choice("filter", 2) == 1 {
-				bf := &pbsubstreams.Module_BlockFilter{Module: c17Names[sym.Choice("filter-ref", len(c17Names))]}
+				bf := &pbsubstreams.Module_BlockFilter{Module: c17Refs[sym.Choice("filter-ref", len(c17Refs))]}
 				switch sym.Choice("query", 3) {
 				case 0:
 				case 1:
